@@ -155,5 +155,5 @@ Definition zoom_sizes_single (o : opts) : list N :=
                        filter (fun z => z <? 2 ^ 32)
                               (map (fun k => o_izoom o * ZOOM_SUCC_FACTOR ^ N.of_nat k) (seq 0 (N.to_nat (o_maxzooms o))))
              end in
-  (* at most MAX_ZOOM_LEVELS levels fit the directory: the finest ones are kept (/repo adc453b) *)
+  (* at most MAX_ZOOM_LEVELS levels fit the directory: the finest ones are kept (/repo 3a3ac98) *)
   firstn (N.to_nat MAX_ZOOM_LEVELS) (sort_dedup (filter (fun z => negb (z =? 0)) raw)).
